@@ -160,8 +160,16 @@ func c15Run(c *Ctx) {
 		}
 	}
 	// 3. strings: every placement x a pool including every Bangla code point with a canonical decomposition
-	strs := []string{"abc", "", "a b", "নমস্কার", "কি", "é", "é", "à́", "ক়", "ড়", "ঢ়", "য়", "ড়", "ঢ়", "য়",
-		"ো", "ো", "ৌ", "ৌ", "কো", "কো", "xয়" + "y", K["else"], K["continue"], "Å", "ẛ̣", "1e+06", "0", "nil", "true", "[1 2]", "क़"}
+	// composed / decomposed spellings are written with escapes so that no editor or
+	// transport normalises them: U+09DC/DD/DF (precomposed, NFC-unstable), their
+	// decompositions with the nukta U+09BC, two-part vowel signs U+09CB/CC and their
+	// halves U+09C7+U+09BE / U+09C7+U+09D7, Latin e-acute both ways, etc.
+	strs := []string{"abc", "", "a b", "\u09a8\u09ae\u09b8\u09cd\u0995\u09be\u09b0", "\u0995\u09bf",
+		"\u00e9", "e\u0301", "a\u0300\u0301", "\u0995\u09bc",
+		"\u09dc", "\u09dd", "\u09df", "\u09a1\u09bc", "\u09a2\u09bc", "\u09af\u09bc",
+		"\u09cb", "\u09c7\u09be", "\u09cc", "\u09c7\u09d7", "\u0995\u09cb", "\u0995\u09c7\u09be", "x\u09df" + "y", K["else"], K["continue"],
+		"\u212b", "\u1e9b\u0323", "1e+06", "0", "nil", "true", "[1 2]", "\u0958",
+		"%", "100%", "%d %s %v", "%!(NOVERB)", "50% off", "%%", "a%20b", "\u09ac\u09df\u09b8"}
 	for _, s := range strs {
 		if strings.ContainsAny(s, "\"") {
 			continue
@@ -200,6 +208,8 @@ func c15Run(c *Ctx) {
 		Lines(Print("[1, [2, [3, [4]]], {k: [5, {j: 6}]}]"), Print("{a: {b: {c: [1, 2, 3]}}, z: []}"), Print("[[], [[]], {}, [{}]]")),
 		Lines(Fun("f", "", ""), Print("f"), Print("[f]"), Print(B["len"]), Print("{k: f}")),
 		Lines(Print("[0.5, -0, 1000000, 0.0000001, 123456]"), Print("{big: 9007199254740993, small: 0.000001}")),
+		Lines(Print(`100 + "%"`), Print(`"%" + 100`), Print(`2.5 + "%%"`), Print(`1 + "%d"`), Print(`"%v" + 1 + "%s"`), Print(`1000000 + "%"`), Print(`0.5 + "% off"`)),
+		Lines(Var("o", "{x: 1, y: \"hi\"}"), Var("a", "[o, o, 0]"), "a[2] = a;", Print("a"), Var("leaf", "{p: 1}"), Var("root", "{p: leaf, q: leaf}"), "root.self = root;", Print("root"), Var("sh", "[7, 8]"), Var("c", "[sh, [sh, sh], 0]"), "c[2] = c;", Print("c"), Print("[c, o]")),
 		Lines(Print(`"a" + 1`), Print(`1 + "a"`), Print(`"x" + 0.5 + "y" + 1000000 + "z"`), Print(`"" + (1/3)`), Print(`(2 ** 70) + ""`)),
 	} {
 		if c.Mine() {
